@@ -53,6 +53,12 @@ func c08O7(r *core.R) {
 	for i, f := range flags {
 		bit[f] = 1 << uint(i)
 	}
+	// private copies of the flags carry the flag's bit
+	for cf, k := range c08KnobAliases(m) {
+		if b, ok := bit[k]; ok {
+			bit[cf] = b
+		}
+	}
 	allBits := uint(1)<<uint(len(flags)) - 1
 	bodies := c01RoleBodies(m, "worker")
 	obj := map[types.Object]uint{}
